@@ -152,6 +152,14 @@ def _map_query_error(error: duckdb.Error, sql_query: str) -> Exception:
     if "cannot take logarithm of a negative number" in msg_lower:
         return RunTimeError("2-1-15-3", op="log", value="negative")
 
+    # Any other data-dependent runtime failure (numeric overflow, square root of a negative
+    # number, invalid regular expression, failed conversion...) is a VTL runtime error.
+    if isinstance(
+        error,
+        (duckdb.OutOfRangeException, duckdb.InvalidInputException, duckdb.ConversionException),
+    ):
+        return RunTimeError("2-1-1-1", op="query execution", error=msg.split("\n")[0])
+
     # Return original error if no mapping found
     return error
 
